@@ -16,7 +16,7 @@ LEAN_TARGETS = IMPORTS + ["driver_sim"]
 THEOREMS = vlib.discover_theorems("CaresProps/C07.lean") + [
     "Cares.C07b.sleep_covers_deadlines", "Cares.C07b.covered_step", "Cares.C07b.covered_init", "Cares.C07b.sleepUntil_covers",
     "Cares.C07b.pinned_loses_wake", "Cares.C07b.pinned_not_covered",
-    "Cares.C07b.waitMs_pos", "Cares.C07b.waitMs_le", "Cares.C07b.waitMs_ge", "Cares.C07b.wakeOnSend_covers"] + \
+    "Cares.C07b.waitMs_pos", "Cares.C07b.waitMs_le", "Cares.C07b.waitMs_ge", "Cares.C07b.wakeOnSend_covers", "Cares.C07b.wakeOnSend_earliest", "Cares.C07b.wakeOnSend_idle"] + \
     vlib.discover_theorems("CaresProps/C07c.lean")
 GENERATORS = [gen_evtimeout.gen_evtimeout, gen_evwake.gen_evwake, gen_timeval.gen_timeval]
 TRUSTED = [
